@@ -709,6 +709,108 @@ func c18TinyH(x *mc.Exec) {
 	fs.flush(x, int(n))
 }
 
+// c18Zeros: vectors of signed zeros (and one ordinary entry among negative zeros): the sign of a zero result is
+// part of "bit for bit".
+func c18Zeros(x *mc.Exec) {
+	debug.SetPanicOnFault(true)
+	ki := x.All("kernel", 3)
+	pat := x.All("pattern", 6)
+	fs := newFailSet([]string{"dct64.zeros", "dct256.zeros", "dct2d64.zeros"}[ki])
+	if !asmAvailable {
+		x.Trivial = true
+		return
+	}
+	nz := float32(math.Copysign(0, -1))
+	size := []int{64, 256, 4096}[ki]
+	fill := func(v []float32, p int) string {
+		for i := range v {
+			v[i] = 0
+		}
+		switch pat {
+		case 0:
+			for i := range v {
+				v[i] = nz
+			}
+			return "all entries -0"
+		case 1:
+			for i := 0; i < len(v); i += 2 {
+				v[i] = nz
+			}
+			return "-0 at even indices, +0 at odd"
+		case 2:
+			for i := 1; i < len(v); i += 2 {
+				v[i] = nz
+			}
+			return "-0 at odd indices, +0 at even"
+		case 3:
+			v[p] = nz
+			return fmt.Sprintf("-0 at %d, +0 elsewhere", p)
+		case 4:
+			for i := range v {
+				v[i] = nz
+			}
+			v[p] = 1
+			return fmt.Sprintf("1 at %d, -0 elsewhere", p)
+		default:
+			for i := range v {
+				v[i] = nz
+			}
+			v[p] = 0
+			return fmt.Sprintf("+0 at %d, -0 elsewhere", p)
+		}
+	}
+	np := 1
+	if pat >= 3 {
+		np = size
+		if ki == 2 {
+			np = 64
+		}
+	}
+	ba, bg := guardmem.Alloc(4*size, false, 32), guardmem.Alloc(4*size, false, 32)
+	defer ba.Free()
+	defer bg.Free()
+	a, g := ba.Float32s(), bg.Float32s()
+	n := 0
+	for p := 0; p < np; p++ {
+		pp := p
+		if ki == 2 {
+			pp = p*64 + (p*7)%64
+		}
+		what := fill(a, pp)
+		fill(g, pp)
+		n++
+		var ra, rg []float32
+		var pi *mc.PanicInfo
+		if ki < 2 {
+			k := &kerns1[ki]
+			pi = mc.Guard(func() { k.goK(g); k.asm(a) })
+			ra, rg = a, g
+		} else {
+			var fa, fg [64]float32
+			pi = mc.Guard(func() { fg = transforms32.DCT2DHash64(g); fa = transforms32.VerifAsmDCT2DHash64(a) })
+			ra, rg = fa[:], fg[:]
+		}
+		if pi != nil {
+			fs.add("panic|"+pi.Class, pi.Value)
+			continue
+		}
+		for i := range ra {
+			if math.Float32bits(ra[i]) != math.Float32bits(rg[i]) {
+				kind := "asm!=go bitwise"
+				if ra[i] == 0 && rg[i] == 0 {
+					kind = "asm!=go: only the sign of a zero coefficient differs"
+				}
+				fs.add(kind, fmt.Sprintf("%s: coefficient %d: asm %g (%#x) go %g (%#x)", what, i, ra[i], math.Float32bits(ra[i]), rg[i], math.Float32bits(rg[i])))
+				break
+			}
+		}
+	}
+	x.Bulk = int64(n) - 1
+	x.InputID = hashBytes([]byte{byte(ki), byte(pat), 0x72})
+	x.Outcome = fmt.Sprint(len(fs.order))
+	fs.flush(x, n)
+}
+
 func init() {
 	register(&mc.Check{
 		Property: "C18",
@@ -732,6 +834,8 @@ func init() {
 					Rule: fmt.Sprintf("float64 256-point kernel: support <= %d vs DCT-II within 1e-12*L1", s256)},
 				{Name: "bottom-of-range", H: c18TinyH, NoLevels: true, SplitDepth: 1, Isolate: true,
 					Rule: "assembly vs portable bitwise on vectors with one or two entries from {+-1e-30, +-min normal, subnormals down to 1.4e-45, 1, -255} (all second positions x 64 first positions) for the 64- and 256-point kernels, same-row/same-column pairs and a dense scaled noise image for the 64x64 kernel: gradual underflow must be identical"},
+				{Name: "signed-zeros", H: c18Zeros, NoLevels: true, SplitDepth: 1, Isolate: true,
+					Rule: "vectors of signed zeros (all -0; -0 at even / odd indices; one -0; one +0 or one 1 among -0, at every position) for the 64- and 256-point kernels and the 64x64 kernel: assembly vs portable bitwise, the sign of a zero included"},
 				{Name: "dense-edge-vectors", H: c18Dense, NoLevels: true, SplitDepth: 1, Isolate: true,
 					Rule: "constant, alternating, ramp vectors for each menu value, every DCT basis vector at two amplitudes, 64 fixed LCG vectors over 13 decades; 4 kernels x 2 flush positions"},
 				{Name: "exported-2d", H: c18Exported(map[bool]int{true: 1, false: 8}[tier == "thorough"]), NoLevels: true, SplitDepth: 1, Isolate: true,
